@@ -151,6 +151,13 @@ def judge_listing(cpu, src, files, decode_texts):
                     ua, " ".join(g.hex() for g in groups), span.hex())))
                 for i in range(true_len):
                     covered[a + i] = img[a + i]
+                if cont and all(len(g) == 3 for g in groups) and true_len == 4 * len(groups):
+                    # 24-bit words shown without their fourth byte (dsPIC): the continuation line must still name the address of its word
+                    for ca, j in cont:
+                        if ca != (a + 4 * (nline + j)) // bpa:
+                            viol.append(("continuation-address", "the continuation line of the instruction at 0x%x is labelled 0x%x, its word lies at 0x%x" % (
+                                ua, ca, (a + 4 * (nline + j)) // bpa)))
+                            break
                 continue
         for i in range(true_len):
             covered[a + i] = img[a + i]
@@ -209,8 +216,8 @@ def programs(cpu, quick):
     hdr = corpus.header(cpu)
     out = []
     groups = [ls[i:i + 4] for i in range(0, len(ls), 4)]
-    if quick:
-        groups = groups[::max(1, len(groups) // 6)][:6]
+    # (the quick tier used to pose six of the groups; a two-word instruction of one CPU's corpus was then never listed, and all
+    # groups cost half a minute, so both tiers pose them all)
     for gi, g in enumerate(groups):
         g = C12.unique_labels(g)
         out.append(("plain%d" % gi, hdr + ".org 0x100\n" + "\n".join(g) + "\n", {}))
